@@ -85,6 +85,10 @@ func main() {
 		code := runC16(tierArg())
 		cleanupAll()
 		os.Exit(code)
+	case "C18":
+		code := runC18(tierArg())
+		cleanupAll()
+		os.Exit(code)
 	case "C19":
 		code := runC19(tierArg())
 		cleanupAll()
